@@ -258,12 +258,16 @@ class UAIReader(object):
                 values = self.grammar.parseString(self.network)[
                     "fun_values_" + str(function)
                 ]
+                if isinstance(values, str):
+                    values = [values]
                 tables.append((child_var, list(values)))
             elif self.network_type == "MARKOV":
                 function_variables = ["var_" + str(var) for var in function_variables]
                 values = self.grammar.parseString(self.network)[
                     "fun_values_" + str(function)
                 ]
+                if isinstance(values, str):
+                    values = [values]
                 tables.append((function_variables, list(values)))
         return tables
 
